@@ -282,7 +282,28 @@ def runRwio (inp : List UInt8) (ns : List Nat) (sends : List (List Nat)) : Strin
 
 def b01 (b : Bool) : String := if b then "1" else "0"
 
+/-- `loop`: what the property demands of a whole session between an initiator and a responder
+(theorems `session_established`, `stream_sync`): for garbage lengths ≤ 4095 and decoys / packets
+within the size limit both handshakes complete, the session ids agree, and each side receives the
+other's non-ignored packets, contents identical, in order. -/
+def loopAnswer (gA gB : Nat) (dA dB : List Nat) (pktsA pktsB : List (List Nat)) : Option String :=
+  if gA > Spec.MAX_GARBAGE_LEN ∨ gB > Spec.MAX_GARBAGE_LEN ∨ (dA ++ dB).any (· > Spec.MAX_CONTENT_LEN) then none else do
+  let rx := fun (ps : List (List Nat)) => ps.filterMapM (fun p => match p with
+    | [len, seed, ign] => if len > Spec.MAX_CONTENT_LEN then none else
+        some (if ign == 1 then none else some (digest (fill seed len)))
+    | _ => none)
+  let fromB ← rx pktsB
+  let fromA ← rx pktsA
+  let tok := fun (l : List String) => if l.isEmpty then "-" else String.intercalate "," l
+  pure ("A:hs=ok B:hs=ok sid-eq=1 A-rx=" ++ tok fromB ++ " B-rx=" ++ tok fromA)
+
 def handle : List String → String
+  | ["loop", _magic, _sa, _sb, gA, gB, dA, dB, pa, pb] =>
+    match gA.toNat?, gB.toNat?, parseNats? dA ",", parseNats? dB ",",
+      (if pa == "-" then some [] else (pa.splitOn ";").mapM (parseNats? · ":")),
+      (if pb == "-" then some [] else (pb.splitOn ";").mapM (parseNats? · ":")) with
+    | some gA, some gB, some dA, some dB, some pa, some pb => (loopAnswer gA gB dA dB pa pb).getD "bad-op"
+    | _, _, _, _, _, _ => "bad-op"
   | ["peerhs", o, i, onet, inet, pings] =>
     match pings.toNat? with
     | some pings =>
